@@ -437,3 +437,39 @@ func H18Dates() {
 	nn, e := NormalizeDateString(n1)
 	vndAssert(e == nil && nn == n1, "normalisation-is-idempotent")
 }
+
+// H18AddBetween: a Builder that has already produced its series keeps accepting results;
+// the series built afterwards are those of a fresh Builder given all results up front
+// (later measurements are smaller than earlier ones, so a sample that is not re-sorted, or a
+// cell that is not revisited, shows).
+func H18AddBetween() {
+	h18Descending = true
+	defer func() { h18Descending = false }()
+	dupe := vndParam("dupe")
+	rs := []h18Res{
+		{exp: 0, ser: 0, role: 'B', name: 'P'},
+		{exp: 0, ser: 0, role: 'T', name: 'P'},
+		{exp: 0, ser: 1, role: 'T', name: 'P'},
+		// added after the first build: into existing cells, and one with symbolic placement
+		{exp: 0, ser: 0, role: 'B', name: 'P'},
+		{exp: 0, ser: 0, role: 'T', name: 'P'},
+		{exp: vndChoice("exp", 2), ser: vndChoice("ser", 2), role: []byte{'T', 'B'}[vndChoice("role", 2)], name: 'P'},
+	}
+	cut := 3
+	b, _ := NewBuilder(h18Options())
+	for i := 0; i < cut; i++ {
+		b.Add(rs[i].build(i))
+	}
+	_, err0 := b.AllComparisonSeries(nil, dupe)
+	for i := cut; i < len(rs); i++ {
+		b.Add(rs[i].build(i))
+	}
+	css, err1 := b.AllComparisonSeries(nil, dupe)
+	order := make([]int, len(rs))
+	for i := range order {
+		order[i] = i
+	}
+	vndReach("h18:add-between")
+	vndAssert(err0 == nil && err1 == nil, "no-error")
+	vndAssert(h18Render(css) == h18Run(rs, order, dupe), "series-after-more-results-equal-those-of-a-fresh-builder")
+}
